@@ -4,4 +4,390 @@
 import TB.Spec.ExportSpec
 namespace TB
 
+/-! ### log extension -/
+
+/-- `st'` extends the log of `st` by operations all satisfying `P` -/
+def Ext (P : Op → Prop) (st st' : St) : Prop := ∃ new, st'.ops = st.ops ++ new ∧ ∀ o ∈ new, P o
+
+theorem Ext.refl {P : Op → Prop} (st : St) : Ext P st st := ⟨[], by simp, by simp⟩
+
+theorem Ext.trans {P : Op → Prop} {a b c : St} (h₁ : Ext P a b) (h₂ : Ext P b c) : Ext P a c := by
+  obtain ⟨n₁, e₁, p₁⟩ := h₁
+  obtain ⟨n₂, e₂, p₂⟩ := h₂
+  refine ⟨n₁ ++ n₂, by rw [e₂, e₁, List.append_assoc], ?_⟩
+  intro o ho
+  rcases List.mem_append.1 ho with h | h
+  · exact p₁ o h
+  · exact p₂ o h
+
+theorem Ext.mono {P Q : Op → Prop} {a b : St} (h : Ext P a b) (hpq : ∀ o, P o → Q o) : Ext Q a b := by
+  obtain ⟨n, e, p⟩ := h
+  exact ⟨n, e, fun o ho => hpq o (p o ho)⟩
+
+theorem newOps_of_eq {st st' : St} {new : List Op} (h : st'.ops = st.ops ++ new) : newOps st st' = new := by
+  simp [newOps, h]
+
+theorem Ext.newOps {P : Op → Prop} {a b : St} (h : Ext P a b) : ∀ o ∈ newOps a b, P o := by
+  obtain ⟨n, e, p⟩ := h
+  rw [newOps_of_eq e]; exact p
+
+theorem Ext.mem_ops {P : Op → Prop} {a b : St} (h : Ext P a b) : ∀ o ∈ b.ops, o ∈ a.ops ∨ P o := by
+  obtain ⟨n, e, p⟩ := h
+  intro o ho
+  rw [e] at ho
+  rcases List.mem_append.1 ho with h | h
+  · exact Or.inl h
+  · exact Or.inr (p o h)
+
+theorem Ext.extends {P : Op → Prop} {a b : St} (h : Ext P a b) : ∃ new, b.ops = a.ops ++ new := by
+  obtain ⟨n, e, _⟩ := h
+  exact ⟨n, e⟩
+
+theorem Ext.of_newOps {P : Op → Prop} {a b : St} (h : ∃ new, b.ops = a.ops ++ new)
+    (hp : ∀ o ∈ TB.newOps a b, P o) : Ext P a b := by
+  obtain ⟨n, e⟩ := h
+  rw [newOps_of_eq e] at hp
+  exact ⟨n, e, hp⟩
+
+/-! ### `St.op` -/
+
+theorem St.op_ops (st : St) (k : OpKind) (p : Path) (nat : Fs → Fs × Bool) :
+    (st.op k p nat).1.ops = st.ops ++ [⟨k, p, (st.op k p nat).2⟩] := by
+  simp only [St.op]
+  split
+  · rfl
+  · rfl
+
+theorem St.op_faults (st : St) (k : OpKind) (p : Path) (nat : Fs → Fs × Bool) :
+    (st.op k p nat).1.faults = st.faults := by
+  simp only [St.op]
+  split
+  · rfl
+  · rfl
+
+theorem St.op_ext {P : Op → Prop} (st : St) (k : OpKind) (p : Path) (nat : Fs → Fs × Bool)
+    (h : ∀ ok, P ⟨k, p, ok⟩) : Ext P st (st.op k p nat).1 :=
+  ⟨_, St.op_ops st k p nat, by simp only [List.mem_singleton]; rintro o rfl; exact h _⟩
+
+theorem St.op_ext' {P : Op → Prop} {st st' : St} {ok : Bool} {k : OpKind} {p : Path} {nat : Fs → Fs × Bool}
+    (e : st.op k p nat = (st', ok)) (h : ∀ ok, P ⟨k, p, ok⟩) : Ext P st st' := by
+  have := St.op_ext st k p nat h
+  rwa [e] at this
+
+/-- kinds of operations issued when reading: open read-only, seek, read -/
+def ReadOp (o : Op) : Prop := o.kind = .openr ∨ (∃ n, o.kind = .seek n) ∨ o.kind = .read
+
+theorem St.openr_ext (st : St) (p : Path) : Ext (fun o => o.kind = .openr ∧ o.path = p) st (st.openr p).1 :=
+  St.op_ext _ _ _ _ (fun _ => ⟨rfl, rfl⟩)
+
+theorem St.readBytes_ext (st : St) (p : Path) (len off : Nat) : Ext ReadOp st (st.readBytes p len off).1 := by
+  unfold St.readBytes
+  rcases h1 : st.op .openr p _ with ⟨st1, ok1⟩
+  have e1 : Ext ReadOp st st1 := St.op_ext' h1 (fun _ => Or.inl rfl)
+  simp only []
+  split
+  · exact e1
+  rcases h2 : st1.op (.seek off) p _ with ⟨st2, ok2⟩
+  have e2 : Ext ReadOp st st2 := e1.trans (St.op_ext' h2 (fun _ => Or.inr (Or.inl ⟨_, rfl⟩)))
+  simp only []
+  split
+  · exact e2
+  split
+  · exact e2
+  rcases h3 : st2.op .read p _ with ⟨st3, ok3⟩
+  have e3 : Ext ReadOp st st3 := e2.trans (St.op_ext' h3 (fun _ => Or.inr (Or.inr rfl)))
+  simp only []
+  split
+  · exact e3
+  split <;> exact e3
+
+/-! ### solver: reads -/
+
+theorem scanSingle_ext (H : Bytes → Bytes) (hash : Bytes) (seg : WSeg) (st : St) (ps : List Path) :
+    Ext ReadOp st (scanSingle H hash seg st ps).1 := by
+  induction ps generalizing st with
+  | nil => exact Ext.refl _
+  | cons p ps ih =>
+    unfold scanSingle
+    have e1 := St.readBytes_ext st p seg.len seg.off
+    rcases h : st.readBytes p seg.len seg.off with ⟨st1, _ | bytes⟩
+    · rw [h] at e1; exact e1
+    · rw [h] at e1
+      simp only []
+      split
+      · exact e1
+      · exact e1.trans (ih st1)
+
+theorem scanSingle_hash {H : Bytes → Bytes} {hash : Bytes} {seg : WSeg} {st st1 : St} {ps : List Path}
+    {src : Path} {bytes : Bytes} (h : scanSingle H hash seg st ps = (st1, .ok (some (src, bytes)))) :
+    H bytes = hash := by
+  induction ps generalizing st with
+  | nil => simp [scanSingle] at h
+  | cons p ps ih =>
+    unfold scanSingle at h
+    rcases h' : st.readBytes p seg.len seg.off with ⟨st', _ | b⟩
+    · simp [h'] at h
+    · simp only [h'] at h
+      split at h
+      · rename_i hb
+        simp only [Prod.mk.injEq, Res.ok.injEq, Option.some.injEq] at h
+        obtain ⟨_, _, rfl⟩ := h
+        exact eq_of_beq hb
+      · exact ih h
+
+theorem preloadSeg_ext (seg : WSeg) (st : St) (ps : List Path) (acc : List (Option Path × Bytes)) :
+    Ext ReadOp st (preloadSeg seg st ps acc).1 := by
+  induction ps generalizing st acc with
+  | nil => exact Ext.refl _
+  | cons p ps ih =>
+    unfold preloadSeg
+    have e1 := St.readBytes_ext st p seg.len seg.off
+    rcases h : st.readBytes p seg.len seg.off with ⟨st1, _ | bytes⟩
+    · rw [h] at e1; exact e1
+    · rw [h] at e1
+      simp only []
+      split
+      · exact e1.trans (ih st1 _)
+      · exact e1.trans (ih st1 _)
+
+theorem preload_ext (st : St) (segs : List WSeg) : Ext ReadOp st (preload st segs).1 := by
+  induction segs generalizing st with
+  | nil => exact Ext.refl _
+  | cons seg rest ih =>
+    unfold preload
+    split
+    · have := ih st
+      split <;> rename_i h <;> (rw [h] at this; exact this)
+    · split
+      · have := ih st
+        split <;> rename_i h <;> (rw [h] at this; exact this)
+      · rename_i paths _
+        have e1 := preloadSeg_ext seg st paths []
+        split
+        · rename_i st1 r h1
+          rw [h1] at e1
+          have := ih st1
+          split <;> rename_i h <;> (rw [h] at this; exact e1.trans this)
+        · rename_i h1; rw [h1] at e1; exact e1
+        · rename_i h1; rw [h1] at e1; exact e1
+
+theorem searchProduct_hash {H : Bytes → Bytes} {hash : Bytes} {cands : List (List (Option Path × Bytes))}
+    {chosen res : List (Option Path × Bytes)} (h : searchProduct H hash cands chosen = some res) :
+    H (res.flatMap (·.2)) = hash := by
+  induction cands generalizing chosen with
+  | nil =>
+    simp only [searchProduct] at h
+    split at h
+    · rename_i hb
+      cases h
+      exact eq_of_beq hb
+    · cases h
+  | cons c rest ih =>
+    simp only [searchProduct] at h
+    generalize c = l at h
+    induction l with
+    | nil => simp [List.firstM] at h
+    | cons x xs ihx =>
+      simp only [List.firstM] at h
+      cases hx : searchProduct H hash rest (chosen ++ [x]) with
+      | some r =>
+        rw [hx] at h
+        simp at h
+        subst h
+        exact ih hx
+      | none =>
+        rw [hx] at h
+        simp at h
+        exact ihx h
+
+/-! ### the writer -/
+
+/-- an operation the writer issues for segment `seg`, cut from `buf` at cursor `s` -/
+def SegOp (seg : WSeg) (buf : Bytes) (s : Nat) (o : Op) : Prop :=
+  (o.kind = .mkdirs ∧ o.path = seg.ent.fullTarget.dropLast)
+  ∨ (o.kind = .openc ∧ o.path = seg.ent.fullTarget)
+  ∨ (o.kind = .setlen seg.ent.fileLength ∧ o.path = seg.ent.fullTarget)
+  ∨ (o.kind = .seek seg.off ∧ o.path = seg.ent.fullTarget)
+  ∨ (o.kind = .write seg.off ((buf.drop s).take seg.len) ∧ o.path = seg.ent.fullTarget ∧ s + seg.len ≤ buf.length)
+
+/-- an operation the writer issues for the list `pairs`, the cursor starting at `start` -/
+def WOp (pairs : List (WSeg × Option Path)) (buf : Bytes) (start : Nat) (o : Op) : Prop :=
+  ∃ k seg, (pairs.map (·.1))[k]? = some seg ∧ seg.ent.isPad = false
+    ∧ SegOp seg buf (start + segStart (pairs.map (·.1)) k) o
+
+theorem WOp.head {seg : WSeg} {src : Option Path} {rest : List (WSeg × Option Path)} {buf : Bytes} {start : Nat}
+    {o : Op} (hp : seg.ent.isPad = false) (h : SegOp seg buf start o) : WOp ((seg, src) :: rest) buf start o :=
+  ⟨0, seg, by simp, hp, by simpa [segStart] using h⟩
+
+theorem WOp.tail {seg : WSeg} {src : Option Path} {rest : List (WSeg × Option Path)} {buf : Bytes} {start : Nat}
+    {o : Op} (h : WOp rest buf (start + seg.len) o) : WOp ((seg, src) :: rest) buf start o := by
+  obtain ⟨k, sg, hk, hp, hs⟩ := h
+  refine ⟨k + 1, sg, by simpa using hk, hp, ?_⟩
+  have : start + segStart (List.map (·.1) ((seg, src) :: rest)) (k + 1)
+      = start + seg.len + segStart (List.map (·.1) rest) k := by
+    simp [segStart]; omega
+  rw [this]; exact hs
+
+theorem writeSegs_ext (st : St) (pairs : List (WSeg × Option Path)) (buf : Bytes) (start : Nat) :
+    Ext (WOp pairs buf start) st (writeSegs st pairs buf start).1 := by
+  induction pairs generalizing st start with
+  | nil => exact Ext.refl _
+  | cons pr rest ih =>
+    obtain ⟨seg, src⟩ := pr
+    have tl : ∀ st', Ext (WOp ((seg, src) :: rest) buf start) st' (writeSegs st' rest buf (start + seg.len)).1 :=
+      fun st' => (ih st' (start + seg.len)).mono (fun o h => WOp.tail h)
+    unfold writeSegs
+    simp only []
+    split
+    · exact tl st
+    rename_i hpad
+    have hpad : seg.ent.isPad = false := by simpa using hpad
+    split
+    · exact tl st
+    rcases h1 : st.op .mkdirs seg.ent.fullTarget.dropLast _ with ⟨st1, ok1⟩
+    have e1 : Ext (WOp ((seg, src) :: rest) buf start) st st1 :=
+      St.op_ext' h1 (fun _ => WOp.head hpad (Or.inl ⟨rfl, rfl⟩))
+    simp only []
+    split
+    · exact e1
+    rcases h2 : st1.op .openc seg.ent.fullTarget _ with ⟨st2, ok2⟩
+    have e2 : Ext (WOp ((seg, src) :: rest) buf start) st st2 :=
+      e1.trans (St.op_ext' h2 (fun _ => WOp.head hpad (Or.inr (Or.inl ⟨rfl, rfl⟩))))
+    simp only []
+    split
+    · exact e2
+    split
+    · rename_i i _
+      rcases h3 : st2.op (.setlen seg.ent.fileLength) seg.ent.fullTarget _ with ⟨st3, ok3⟩
+      have e3 : Ext (WOp ((seg, src) :: rest) buf start) st st3 :=
+        e2.trans (St.op_ext' h3 (fun _ => WOp.head hpad (Or.inr (Or.inr (Or.inl ⟨rfl, rfl⟩)))))
+      simp only []
+      split
+      · exact e3
+      rcases h4 : st3.op (.seek seg.off) seg.ent.fullTarget _ with ⟨st4, ok4⟩
+      have e4 : Ext (WOp ((seg, src) :: rest) buf start) st st4 :=
+        e3.trans (St.op_ext' h4 (fun _ => WOp.head hpad (Or.inr (Or.inr (Or.inr (Or.inl ⟨rfl, rfl⟩))))))
+      simp only []
+      split
+      · exact e4
+      split
+      · exact e4
+      rename_i hlen
+      rcases h5 : st4.op (.write seg.off ((buf.drop start).take seg.len)) seg.ent.fullTarget _ with ⟨st5, ok5⟩
+      have e5 : Ext (WOp ((seg, src) :: rest) buf start) st st5 :=
+        e4.trans (St.op_ext' h5 (fun _ => WOp.head hpad
+          (Or.inr (Or.inr (Or.inr (Or.inr ⟨rfl, rfl, by omega⟩))))))
+      simp only []
+      split
+      · exact e5
+      · exact e5.trans (tl st5)
+    · exact e2
+
+/-! ### one piece -/
+
+theorem zip_fst_prefix {α β : Type} (a : List α) (b : List β) : ∃ r, a = (List.zip a b).map (·.1) ++ r := by
+  induction a generalizing b with
+  | nil => exact ⟨[], by simp⟩
+  | cons x xs ih =>
+    cases b with
+    | nil => exact ⟨x :: xs, by simp⟩
+    | cons y ys =>
+      obtain ⟨r, hr⟩ := ih ys
+      exact ⟨r, by simp only [List.zip_cons_cons, List.map_cons, List.cons_append, ← hr]⟩
+
+theorem prefix_getElem?_segStart {l r : List WSeg} {k : Nat} {x : WSeg} (h : l[k]? = some x) :
+    (l ++ r)[k]? = some x ∧ segStart (l ++ r) k = segStart l k := by
+  obtain ⟨hk, _⟩ := List.getElem?_eq_some_iff.1 h
+  refine ⟨by rw [List.getElem?_append_left hk]; exact h, ?_⟩
+  simp only [segStart]
+  rw [List.take_append_of_le_length (by omega)]
+
+/-- an operation of the evaluation of piece `w`: a read, or a writer operation for one of its non-padding
+    segments with a buffer that hashes to the piece hash -/
+def PieceOp (H : Bytes → Bytes) (w : Work) (o : Op) : Prop :=
+  ReadOp o ∨ ∃ buf, H buf = w.hash ∧ ∃ k seg, w.segs[k]? = some seg ∧ seg.ent.isPad = false
+    ∧ SegOp seg buf (segStart w.segs k) o
+
+theorem solvePiece_ext (H : Bytes → Bytes) (st : St) (w : Work) : Ext (PieceOp H w) st (solvePiece H st w).1 := by
+  unfold solvePiece
+  simp only []
+  split
+  · exact Ext.refl _
+  split
+  · rename_i seg hsegs
+    split
+    · split <;> exact Ext.refl _
+    · split
+      · exact Ext.refl _
+      · rename_i paths _
+        have e1 : Ext (PieceOp H w) st (scanSingle H w.hash seg st paths).1 :=
+          (scanSingle_ext H w.hash seg st paths).mono (fun o h => Or.inl h)
+        split
+        · rename_i st1 src bytes hscan
+          rw [hscan] at e1
+          refine e1.trans ((writeSegs_ext st1 [(seg, some src)] bytes 0).mono ?_)
+          rintro o ⟨k, sg, hk, hp, hs⟩
+          refine Or.inr ⟨bytes, scanSingle_hash hscan, k, sg, by rw [hsegs]; simpa using hk, hp, ?_⟩
+          rw [hsegs]; simpa using hs
+        · rename_i h; rw [h] at e1; exact e1
+        · rename_i h; rw [h] at e1; exact e1
+        · rename_i h; rw [h] at e1; exact e1
+  · have e1 : Ext (PieceOp H w) st (preload st w.segs).1 :=
+      (preload_ext st w.segs).mono (fun o h => Or.inl h)
+    split
+    · rename_i st1 loaded hpre
+      rw [hpre] at e1
+      split
+      · rename_i chosen hsearch
+        refine e1.trans ((writeSegs_ext st1 _ _ 0).mono ?_)
+        rintro o ⟨k, sg, hk, hp, hs⟩
+        obtain ⟨r, hr⟩ := zip_fst_prefix w.segs (chosen.map (·.1))
+        obtain ⟨h1, h2⟩ := prefix_getElem?_segStart (r := r) hk
+        rw [← hr] at h1 h2
+        refine Or.inr ⟨_, searchProduct_hash hsearch, k, sg, h1, hp, ?_⟩
+        rw [h2]; simpa using hs
+      · exact e1
+    · rename_i h; rw [h] at e1; exact e1
+    · rename_i h; rw [h] at e1; exact e1
+
+theorem ReadOp.not_mutating {o : Op} (h : ReadOp o) : o.kind.mutating = false := by
+  rcases h with h | ⟨n, h⟩ | h <;> rw [h] <;> rfl
+
+theorem ReadOp.not_write {o : Op} (h : ReadOp o) (off : Nat) (data : Bytes) : o.kind ≠ .write off data := by
+  rcases h with h | ⟨n, h⟩ | h <;> rw [h] <;> simp
+
+theorem SegOp.write {seg : WSeg} {buf : Bytes} {s : Nat} {o : Op} (h : SegOp seg buf s o) {off : Nat}
+    {data : Bytes} (hk : o.kind = .write off data) :
+    o.path = seg.ent.fullTarget ∧ off = seg.off ∧ data = (buf.drop s).take seg.len ∧ s + seg.len ≤ buf.length := by
+  rcases h with ⟨h, _⟩ | ⟨h, _⟩ | ⟨h, _⟩ | ⟨h, _⟩ | ⟨h, hp, hl⟩
+  · rw [h] at hk; cases hk
+  · rw [h] at hk; cases hk
+  · rw [h] at hk; cases hk
+  · rw [h] at hk; cases hk
+  · rw [h] at hk; cases hk; exact ⟨hp, rfl, rfl, hl⟩
+
+theorem SegOp.confined {seg : WSeg} {buf : Bytes} {s : Nat} {o : Op} (h : SegOp seg buf s o) :
+    (if o.kind = .mkdirs then o.path = seg.ent.fullTarget.dropLast else o.path = seg.ent.fullTarget) ∧
+      (∀ n, o.kind = .setlen n → n = seg.ent.fileLength) := by
+  rcases h with ⟨h, hp⟩ | ⟨h, hp⟩ | ⟨h, hp⟩ | ⟨h, hp⟩ | ⟨h, hp, _⟩ <;> rw [h] <;> simp [hp]
+
+theorem PieceOp.writeSound {H : Bytes → Bytes} {w : Work} {o : Op} (h : PieceOp H w o) : WriteSound H w o := by
+  intro off data hk
+  rcases h with h | ⟨buf, hb, k, seg, hseg, hp, hs⟩
+  · exact absurd hk (h.not_write off data)
+  · obtain ⟨h1, h2, h3, h4⟩ := hs.write hk
+    exact ⟨k, seg, buf, hseg, hp, h1, h2, hb, h4, h3⟩
+
+theorem PieceOp.gate {H : Bytes → Bytes} {w : Work} {o : Op} (h : PieceOp H w o) (hm : o.kind.mutating = true) :
+    ∃ buf, H buf = w.hash := by
+  rcases h with h | ⟨buf, hb, _⟩
+  · rw [h.not_mutating] at hm; cases hm
+  · exact ⟨buf, hb⟩
+
+theorem PieceOp.confined {H : Bytes → Bytes} {w : Work} {o : Op} (h : PieceOp H w o) : MutationConfined w o := by
+  intro hm
+  rcases h with h | ⟨buf, hb, k, seg, hseg, hp, hs⟩
+  · rw [h.not_mutating] at hm; cases hm
+  · exact ⟨seg, List.mem_of_getElem? hseg, hp, hs.confined⟩
+
 end TB
